@@ -21,6 +21,9 @@ Structural clauses of the data-transfer machinery, decided from the source (no O
 * unit-factor  the (factor, offset) of unit_conversion equals what the unit definitions imply, incl. on-demand
                prefixed units and reciprocal units (units.py interpreted with the exact interpreter of C06)
 * src-shape-fresh edge indexers are resolved against the current shape of their source at every setup
+* chain-order  chains are built before input->input edges are re-attached to the root output
+* shape-cache  a changed source shape invalidates the cached shaped instance of an indexer
+* edge-indexer every edge owns its Indexer (a promotes() call with several names shares one object)
 * scaling-flags the flags that switch unit conversion on (group flag, scaled-subsystem set, transfer flag)
 * scale-idx    array ref/ref0 of the source go through the input's src_indices on every scalar/array pattern
 * slice-norm   slice bounds that need the source size are resolved before the flat index array is built
@@ -1505,25 +1508,21 @@ def group_xfer(repo, out):
         else:
             out.ok(fn, t, 'every path with a transfer object transfers')
     # discrete transfer on every fwd path of the nonlinear vector (assuming discrete connections exist)
-    dn = g.calling('_discrete_transfer')
-    if not dn:
-        out.bad(fn, fwd_if, 'discrete variables are never transferred', key='group-discrete')
-        return
-    okd = True
-    for m in dn:
-        c2 = [c for c in m.calls() if astx.callee_attr(c) == '_discrete_transfer'][0]
-        a0 = astx.arg(c2, 0, 'sub')
-        t0 = sym.term(a0, m) if a0 is not None else None
-        if t0 not in (('param', 'sub'), ('const', None)):
-            out.bad(fn, m.ast, 'the discrete transfer must cover the same subsystem `sub` as the continuous one '
-                    '(or everything)', key='group-discrete-sub')
-            okd = False
-
     def assume_discrete(n, m, lab):
         if n.kind == 'test' and lab == 'false':
             t = n.ast.test
             if astx.mentions(t, '_conn_discrete_in2out'):
-                return False
+                # assumed true only when every conjunct is part of the assumption "a forward transfer of the
+                # nonlinear vector in a group that owns discrete connections"
+                def assumed(cj):
+                    if (astx.path(cj) or '').endswith('_conn_discrete_in2out'):
+                        return True
+                    return isinstance(cj, ast.Compare) and len(cj.ops) == 1 and isinstance(cj.ops[0], ast.Eq) and \
+                        isinstance(cj.left, ast.Name) and \
+                        (cj.left.id, astx.const_str(cj.comparators[0])) in (('vec_name', 'nonlinear'), ('mode', 'fwd'))
+                conj = t.values if isinstance(t, ast.BoolOp) and isinstance(t.op, ast.And) else [t]
+                if all(assumed(cj) for cj in conj):
+                    return False
             if isinstance(t, ast.Compare) and isinstance(t.left, ast.Name) and t.left.id == 'mode' and \
                     astx.const_str(t.comparators[0]) == 'fwd' and isinstance(t.ops[0], ast.Eq):
                 return False
@@ -1533,6 +1532,48 @@ def group_xfer(repo, out):
                     astx.const_str(t.comparators[0]) == 'fwd' and isinstance(t.ops[0], ast.NotEq):
                 return False
         return True
+    # nodes that hand over the discrete variables: direct calls, or calls of a method of this class that does it on
+    # every path on which discrete connections exist
+    dn, dargs = [], []
+    for m in g.nodes:
+        for c2 in (m.calls() if m.kind in ('stmt', 'test', 'iter', 'with') else []):
+            if not (isinstance(c2.func, ast.Attribute) and astx.path(c2.func.value) == 'self'):
+                continue
+            if c2.func.attr == '_discrete_transfer':
+                a0 = astx.arg(c2, 0, 'sub')
+                dn.append(m)
+                dargs.append((m, sym.term(a0, m) if a0 is not None else None))
+                continue
+            callee = repo.lookup(GROUP, 'Group', c2.func.attr)
+            if callee is None or callee.node is fn.node or \
+                    '_discrete_transfer' not in {astx.callee_attr(x) for x in astx.calls(callee.node)}:
+                continue
+            hs = Sym(callee)
+            hd = hs.g.calling('_discrete_transfer')
+            if not hd or hs.g.path([hs.g.entry], [hs.g.exit], avoid=hd, labels=cfgm.noexc,
+                                   edge_ok=assume_discrete) is not None:
+                continue        # the helper does not always hand over: it does not count
+            b = _bind(c2, _param_names(callee.node, skip_self=True))
+            if b is None:
+                continue
+            amap = {('param', p_): sym.term(e_, m) for p_, e_ in b.items()}
+            dn.append(m)
+            for h in hd:
+                for c3 in h.calls():
+                    if astx.callee_attr(c3) == '_discrete_transfer':
+                        a0 = astx.arg(c3, 0, 'sub')
+                        t0 = hs.term(a0, h) if a0 is not None else None
+                        dargs.append((m, subst(t0, lambda x: amap.get(x, x) if _k(x, 'param') else x)
+                                      if t0 is not None else None))
+    if not dn:
+        out.bad(fn, fwd_if, 'discrete variables are never transferred', key='group-discrete')
+        return
+    okd = True
+    for m, t0 in dargs:
+        if t0 not in (('param', 'sub'), ('const', None)):
+            out.bad(fn, m.ast, 'the discrete transfer must cover the same subsystem `sub` as the continuous one '
+                    '(or everything)', key='group-discrete-sub')
+            okd = False
     w = g.path([g.entry], [g.exit], avoid=dn, labels=cfgm.noexc, edge_ok=assume_discrete)
     if w is not None:
         out.bad(fn, fwd_if, "a forward transfer of the 'nonlinear' vector can finish without the discrete transfer: "
@@ -2169,29 +2210,74 @@ def slice_norm(repo, out):
     SLC = ('attr', SELF, '_slice')
     SRC = ('attr', SELF, '_src_shape')
     DIM0 = ('sub', SRC, ('const', 0))
-    # ---- producer: which patterns keep the raw slice
+    # ---- producer: which patterns keep the raw slice (abstract execution of shaped_instance per sign pattern)
     fn = repo.func(INDEXER, 'SliceIndexer.shaped_instance')
     sym = Sym(fn)
-    ctors = []
-    for c in _calls_named(fn.node, 'ShapedSliceIndexer'):
-        st = astx.stmt_of(c)
-        a0 = sym.term(c.args[0], sym.at(c)) if c.args else None
-        if a0 == SLC:
-            kind = 'raw'
-        elif _k(a0, 'call') and attr_path(a0[1]) == 'slice' and len(a0[2]) == 1 and _k(a0[2][0], 'star') and \
-                _k(a0[2][0][1], 'call') and a0[2][0][1][1] == ('attr', SLC, 'indices') and a0[2][0][1][2] == (DIM0,):
-            kind = 'resolved'
-        else:
-            out.unsure(fn, st, f'ShapedSliceIndexer argument `{show(a0)}` is neither the raw slice nor '
-                       'slice(*self._slice.indices(self._src_shape[0]))')
-            return
-        conds = []
-        for a in astx.ancestors(st):
-            if isinstance(a, ast.If):
-                conds.append((sym.term(a.test, sym.g.nodes_of(a)[0]), astx.in_body(st, a, 'body')))
-        ctors.append((st, kind, conds))
-    if not ctors:
+    if not _calls_named(fn.node, 'ShapedSliceIndexer'):
         raise AnalysisError(f'{fn.ident}: no ShapedSliceIndexer construction')
+
+    def slice_kind(t):
+        """'raw' / 'resolved' for a term that is the own slice or its resolution against src_shape[0]."""
+        if t == SLC:
+            return 'raw'
+        if _k(t, 'call') and attr_path(t[1]) == 'slice' and len(t[2]) == 1 and _k(t[2][0], 'star') and \
+                _k(t[2][0][1], 'call') and t[2][0][1][1] == ('attr', SLC, 'indices') and t[2][0][1][2] == (DIM0,):
+            return 'resolved'
+        return None
+
+    class _Done(Exception):
+        def __init__(self, kind, st):
+            self.kind, self.st = kind, st
+
+    def mentions_slice(t):
+        return contains(t, lambda x: x == SLC)
+
+    def execute(stmts, pat, env):
+        """Run statements; raises _Done(kind, stmt) at the ShapedSliceIndexer construction."""
+        for st in stmts:
+            node = sym.g.nodes_of(st)[0] if sym.g.nodes_of(st) else None
+            if isinstance(st, ast.If):
+                tt = sym.term(st.test, node)
+                if not mentions_slice(tt):
+                    # guards that do not look at the slice (cached instance, unknown shape): early exits are skipped
+                    if all(isinstance(x, (ast.Return, ast.Raise)) for x in st.body) and not st.orelse:
+                        continue
+                    raise _Undecided(f'test `{astx.src(st.test)}`')
+                execute(st.body if _slice_cond(tt, pat) else st.orelse, pat, env)
+                continue
+            if isinstance(st, ast.Assign):
+                ctor = [c for c in _calls_named(st.value, 'ShapedSliceIndexer')]
+                if ctor:
+                    c = ctor[0]
+                    arg = c.args[0] if c.args else None
+                    if isinstance(arg, ast.Name) and arg.id in env:
+                        raise _Done(env[arg.id], st)
+                    k = slice_kind(sym.term(arg, node)) if arg is not None else None
+                    if k is None:
+                        raise _Undecided(f'ShapedSliceIndexer argument `{astx.src(arg)}`')
+                    raise _Done(k, st)
+                k = slice_kind(sym.term(st.value, node))
+                for t in st.targets:
+                    if isinstance(t, ast.Name):
+                        if k is not None:
+                            env[t.id] = k
+                        else:
+                            env.pop(t.id, None)
+                continue
+            if isinstance(st, (ast.Expr, ast.Pass)):
+                continue
+            if isinstance(st, ast.Return):
+                raise _Undecided('return before the shaped slice is built')
+            raise _Undecided(f'statement `{astx.src(st)}`')
+        return None
+
+    def select(pat):
+        try:
+            execute(astx.strip_doc(fn.node.body), pat, {})
+        except _Done as d:
+            return d.st, d.kind
+        raise _Undecided('no ShapedSliceIndexer construction on this path')
+    first_ctor = astx.stmt_of(_calls_named(fn.node, 'ShapedSliceIndexer')[0])
     # ---- consumer: which patterns evaluate np.arange(*slc.indices(sys.maxsize)) on a 1-D source
     fa = repo.func(INDEXER, 'ShapedSliceIndexer.as_array')
     sa = Sym(fa)
@@ -2229,11 +2315,7 @@ def slice_norm(repo, out):
                 for step in ('pos', 'neg'):
                     pat = dict(start=start, stop=stop, step=step)
                     npat += 1
-                    sel = [(st, kind) for st, kind, conds in ctors
-                           if all(_slice_cond(t, pat) == pol for t, pol in conds)]
-                    if len(sel) != 1:
-                        out.unsure(fn, fn.node, f'{len(sel)} constructions selected for pattern {pat}')
-                        return
+                    sel = [select(pat)]
                     if sel[0][1] == 'resolved':
                         continue
                     rsel = [(st, kind) for st, kind, conds in rets
@@ -2267,7 +2349,7 @@ def slice_norm(repo, out):
                 'the end of a maxsize-long array: the transfer index array is empty/wrong (e.g. om.slicer[-4:5])',
                 key='slice-negative-bound-unresolved')
     else:
-        out.ok(fn, ctors[0][0], f'every negative start/stop is resolved against src_shape[0] on all {npat} sign patterns '
+        out.ok(fn, first_ctor, f'every negative start/stop is resolved against src_shape[0] on all {npat} sign patterns '
                '(or the slice is applied to arange(src_shape[0]) directly)')
     if offenders['open']:
         pats, st = [fmt(p) for p, _ in offenders['open']], offenders['open'][0][1]
@@ -2276,7 +2358,7 @@ def slice_norm(repo, out):
                 'stop with a positive step maxsize): the index array is empty or too big to allocate '
                 '(e.g. om.slicer[:0:-1] as flat src_indices)', key='slice-open-bound-unresolved')
     else:
-        out.ok(fn, ctors[0][0], 'every open bound that needs the source size is resolved')
+        out.ok(fn, first_ctor, 'every open bound that needs the source size is resolved')
 
 
 # =========================================================================== C04.indexer
@@ -2757,6 +2839,13 @@ def index_arrays(repo, out):
                 par = getattr(par, '_parent', None)
                 if isinstance(par, ast.stmt):
                     par = None
+            if par is None:
+                # stored in a local that is passed to ShapedSliceIndexer later
+                st_ = astx.stmt_of(c)
+                tg = [t.id for t in getattr(st_, 'targets', []) if isinstance(t, ast.Name)]
+                if any(isinstance(c2.args[0], ast.Name) and c2.args[0].id in tg
+                       for c2 in _calls_named(fn.node, 'ShapedSliceIndexer') if c2.args):
+                    par = st_
             if par is not None:
                 out.ok(fn, astx.stmt_of(c), 'ShapedSliceIndexer(slice(*self._slice.indices(src_shape[0])))')
             else:
@@ -2828,24 +2917,59 @@ def src_shape_fresh(repo, out):
               if isinstance(st, ast.Assign) and any(isinstance(t, ast.Attribute) and t.attr == '_src_shape'
                                                     for t in st.targets)
               and isinstance(st.value, ast.Constant) and st.value.value is None]
+
+    def sites(fn, depth=0):
+        """[(stmt in fn, receiver term, shape term, stale guard or None, where-func)] with terms in fn's frame.
+
+        set_src_shape calls made directly, or inside a method of the same class called from fn (its parameters are
+        replaced by the argument terms of the call)."""
+        sym = Sym(fn)
+        res = []
+        for c in astx.calls(fn.node):
+            if not isinstance(c.func, ast.Attribute):
+                continue
+            at = sym.at(c)
+            if c.func.attr == 'set_src_shape':
+                rt = sym.term(c.func.value, at)
+                shp = sym.term(c.args[0], at) if c.args else None
+                stale = None
+                st = astx.stmt_of(c)
+                for a in astx.ancestors(st):
+                    if isinstance(a, ast.If) and astx.in_body(st, a, 'body'):
+                        for cj in (a.test.values if isinstance(a.test, ast.BoolOp) and isinstance(a.test.op, ast.And)
+                                   else [a.test]):
+                            t = sym.term(cj, sym.g.nodes_of(a)[0])
+                            if _k(t, 'cmp') and t[1] == 'Is' and t[3] == ('const', None) and \
+                                    t[2] == ('attr', rt, '_src_shape'):
+                                stale = a
+                            elif _k(t, 'un') and t[1] == 'Not' and t[2] == ('attr', rt, '_src_shape'):
+                                stale = a
+                res.append((st, rt, shp, stale, fn))
+            elif depth < 2 and astx.path(c.func.value) == 'self' and fn.cls is not None:
+                callee = repo.lookup(fn.rel, fn.cls.name, c.func.attr)
+                if callee is None or callee.node is fn.node or \
+                        'set_src_shape' not in {astx.callee_attr(x) for x in astx.calls(callee.node)}:
+                    continue
+                b = _bind(c, _param_names(callee.node, skip_self=True))
+                if b is None:
+                    continue
+                amap = {('param', p): sym.term(e, at) for p, e in b.items()}
+
+                def back(t):
+                    return subst(t, lambda x: amap.get(x, x) if _k(x, 'param') else x)
+                for st2, rt2, shp2, stale2, w in sites(callee, depth + 1):
+                    res.append((astx.stmt_of(c), back(rt2), back(shp2) if shp2 is not None else None, stale2, w))
+        return res
     n = 0
     for qn in ('AllConnGraph.get_parent_val_shape_units', 'AllConnGraph.resolve_output_input_connection'):
         fn = repo.func(CONN, qn)
-        sym = Sym(fn)
-        calls = [c for c in _calls_named(fn.node, 'set_src_shape') if isinstance(c.func, ast.Attribute)]
-        if not calls:
+        found = [x for x in sites(fn) if contains(x[1], lambda y: y == ('const', 'src_indices'))]
+        if not found:
             out.bad(fn, fn.node, 'the src_indices of the edge are never given the shape of their source node: negative '
                     'indices, open slices and `...` cannot be resolved', key='src-shape-never-set')
             continue
-        for c in calls:
-            st = astx.stmt_of(c)
-            at = sym.at(c)
-            rt = sym.term(c.func.value, at)
-            if not contains(rt, lambda x: x == ('const', 'src_indices')):
-                continue                       # not the indexer stored on the edge
+        for st, rt, shp, stale, where in found:
             n += 1
-            # the shape handed over is the shape of the edge's first node (parent / source)
-            shp = sym.term(c.args[0], at) if c.args else None
             edge_first = None
             for a in alts(rt):
                 # self.edges[(u, v)].get('src_indices', None)  |  self.edges[edge].get(...)
@@ -2860,23 +2984,13 @@ def src_shape_fresh(repo, out):
                 out.bad(fn, st, f'the indexer of the edge is resolved against `{show(shp)}`, not against the shape of '
                         'the source-side node of that edge', key='src-shape-of-other-node')
                 continue
-            stale = None
-            for a in astx.ancestors(st):
-                if isinstance(a, ast.If) and astx.in_body(st, a, 'body'):
-                    for cj in (a.test.values if isinstance(a.test, ast.BoolOp) and isinstance(a.test.op, ast.And)
-                               else [a.test]):
-                        t = sym.term(cj, sym.g.nodes_of(a)[0])
-                        if _k(t, 'cmp') and t[1] == 'Is' and t[3] == ('const', None) and \
-                                t[2] == ('attr', rt, '_src_shape'):
-                            stale = a
-                        elif _k(t, 'un') and t[1] == 'Not' and t[2] == ('attr', rt, '_src_shape'):
-                            stale = a
+            via = '' if where is fn else f' (in {where.qualname})'
             if stale is None:
-                out.ok(fn, st, 'src_indices.set_src_shape(<shape of the source node>) on every resolution')
+                out.ok(fn, st, 'src_indices.set_src_shape(<shape of the source node>) on every resolution' + via)
             elif resets:
-                out.unsure(fn, stale, 'shape only set when unset, and _src_shape is reset somewhere; not analysed')
+                out.unsure(where, stale, 'shape only set when unset, and _src_shape is reset somewhere; not analysed')
             else:
-                out.bad(fn, stale, 'the source shape is only given to the indexer while it has none '
+                out.bad(where, stale, 'the source shape is only given to the indexer while it has none '
                         '(`if src_indices._src_shape is None`): the Indexer object of a connect()/promotes() made '
                         'outside setup() survives a re-setup, so after the source was resized negative indices, open '
                         'slices and `...` are still resolved against the OLD source shape and the input silently gets '
@@ -2884,6 +2998,150 @@ def src_shape_fresh(repo, out):
                         key='stale-src-shape')
     if n == 0:
         raise AnalysisError('no set_src_shape call on an edge indexer found in the connection resolution')
+
+
+# =========================================================================== C04.chain-order
+@rule('C04.chain-order', floor=1)
+def chain_order(repo, out):
+    """The src_indices chains are derived from the connection tree BEFORE input->input edges are re-attached to the root."""
+    fn = repo.func(CONN, 'AllConnGraph.setup_global_connections')
+    g = cfgm.build(fn)
+    rd = cfgm.ReachingDefs(g)
+
+    def calling(name):
+        res = list(g.calling(name))
+        for n in g.nodes:      # bound-method alias:  f = self.<name> ; f(model)
+            for c in (n.calls() if n.kind in ('stmt', 'test', 'iter', 'with') else []):
+                if isinstance(c.func, ast.Name):
+                    v = rd.value(n, c.func.id)
+                    if isinstance(v, ast.Attribute) and v.attr == name and n not in res:
+                        res.append(n)
+        return res
+    upd = calling('update_src_inds_lists')
+    tr = calling('transform_input_input_connections')
+    if not upd:
+        out.bad(fn, fn.node, 'update_src_inds_lists is never called: inputs have no src_indices chain', key='chain-never-built')
+        return
+    if not tr:
+        out.ok(fn, upd[0].ast, 'chains are built; no input->input rewrite in this function')
+        return
+    # the rewrite replaces  source -> upstream input -[idx2]-> target  by  source -[idx2]-> target : a chain built
+    # afterwards has lost the indices through which the upstream input reads the source
+    for t in tr:
+        w = g.dominated_by(t, upd, labels=cfgm.noexc)
+        if w is not None:
+            out.bad(fn, t.ast, 'input->input connections are re-attached to the root output before the src_indices '
+                    'chains are built (update_src_inds_lists): the target of connect(<input>, <other input>, '
+                    'src_indices=...) loses the src_indices through which the upstream input reads the source and '
+                    'silently receives source[own indices]: ' + g.fmt_path(w), key='chain-after-rewire')
+            continue
+        late = g.reach(g.normal_succ(t), labels=cfgm.noexc) & set(upd)
+        if late:
+            out.bad(fn, next(iter(late)).ast, 'the src_indices chains are rebuilt after input->input connections were '
+                    're-attached to the root output: the indices of the upstream input are dropped from the chain',
+                    key='chain-after-rewire')
+        else:
+            out.ok(fn, t.ast, 'update_src_inds_lists dominates the input->input rewrite and is not repeated after it')
+
+
+# =========================================================================== C04.shape-cache
+@rule('C04.shape-cache', floor=2)
+def shape_cache(repo, out):
+    """Indexer.set_src_shape: a new source shape invalidates the cached shaped instance on every normal path."""
+    fn = repo.func(INDEXER, 'Indexer.set_src_shape')
+    g = cfgm.build(fn)
+
+    def assigns(attr, none):
+        return g.where(lambda n: n.kind == 'stmt' and isinstance(n.ast, ast.Assign) and
+                       any(astx.path(t) == f'self.{attr}' for t in n.ast.targets) and
+                       (isinstance(n.ast.value, ast.Constant) and n.ast.value.value is None) == none)
+    news = assigns('_src_shape', False)
+    inv = assigns('_shaped_inst', True)
+    if not news:
+        raise AnalysisError(f'{fn.ident}: assignment of the new source shape not found')
+    for a in news:
+        after = g.path(g.normal_succ(a), [g.exit], avoid=inv, labels=cfgm.noexc)
+        before = g.dominated_by(a, inv, labels=cfgm.noexc)
+        if after is None or before is None:
+            out.ok(fn, a.ast, 'self._shaped_inst = None accompanies every change of self._src_shape')
+        else:
+            out.bad(fn, a.ast, 'the source shape changes but the cached shaped instance (self._shaped_inst) is kept on '
+                    'the normal path: shaped_instance()/shaped_array()/flat() keep returning negative indices and open '
+                    'slices resolved against the OLD shape when the same indexer is given another source shape '
+                    '(re-setup with a resized source): ' + g.fmt_path(after), key='shaped-cache-stale')
+    # subclasses that override set_src_shape go through the base implementation
+    n_over = 0
+    for qn, cd in repo.module(INDEXER).classes.items():
+        if qn == 'Indexer':
+            continue
+        for st in cd.body:
+            if isinstance(st, ast.FunctionDef) and st.name == 'set_src_shape':
+                n_over += 1
+                sup = [c for c in astx.calls(st) if astx.callee_attr(c) == 'set_src_shape' and
+                       isinstance(c.func.value, ast.Call) and astx.call_name(c.func.value) == 'super']
+                g2 = cfgm.build(st)
+                supn = [n for n in g2.nodes if n.kind in ('stmt', 'test') and any(c in sup for c in n.calls())]
+                where = (INDEXER, f'{qn}.set_src_shape')
+                if supn and g2.path([g2.entry], [g2.exit], avoid=supn, labels=cfgm.noexc) is None:
+                    out.ok(where, st, 'override delegates to Indexer.set_src_shape on every path')
+                elif astx.mentions(st, '_shaped_inst'):
+                    out.unsure(where, st, 'override manages the shaped-instance cache itself; not analysed')
+                else:
+                    out.bad(where, st, f'{qn}.set_src_shape can return without calling Indexer.set_src_shape: source '
+                            'shape and shaped-instance cache are not updated', key=f'shape-override:{qn}')
+    # the cache is only trusted while set: shaped_instance() implementations return it only when not None
+    out.count('overrides', n_over)
+
+
+# =========================================================================== C04.edge-indexer
+@rule('C04.edge-indexer', floor=1)
+def edge_indexer(repo, out):
+    """Every graph edge owns its Indexer: an object shared by several promoted names is copied per edge."""
+    pr = repo.func(GROUP, 'Group.promotes')
+    ps = Sym(pr)
+    shared = None
+    # is one _PromotesInfo attached to several names?  (name, info) pairs produced by a comprehension / loop over
+    # the names with `info` defined outside of it
+    for c in _calls_named(pr.node, 'extend', 'append'):
+        if not (isinstance(c.func.value, ast.Subscript) and astx.mentions(c.func.value, '_var_promotes')) or not c.args:
+            continue
+        a = c.args[0]
+        if isinstance(a, (ast.GeneratorExp, ast.ListComp)) and isinstance(a.elt, ast.Tuple) and len(a.elt.elts) == 2:
+            info = a.elt.elts[1]
+            if isinstance(info, ast.Name):
+                t = ps.term(info, ps.at(c))
+                if any(_k(x, 'call') and attr_path(x[1]) == '_PromotesInfo' for x in alts(t)):
+                    shared = astx.stmt_of(c)
+            elif isinstance(info, ast.Call) and astx.callee_attr(info) in ('_PromotesInfo', 'copy', 'deepcopy'):
+                pass        # one object per name
+    ap = repo.func(CONN, 'AllConnGraph.add_promotion')
+    asym = Sym(ap)
+    calls = [c for c in _calls_named(ap.node, 'check_add_edge')]
+    if not calls:
+        raise AnalysisError(f'{ap.ident}: check_add_edge call not found')
+    for c in calls:
+        kw = astx.kwarg(c, 'src_indices')
+        if kw is None:
+            continue      # reported by C04.api
+        t = asym.term(kw, asym.at(c))
+        raw = [x for x in alts(t) if x == ('attr', ('param', 'pinfo'), 'src_indices')]
+        fresh = [x for x in alts(t) if _k(x, 'call') and (
+            (_k(x[1], 'attr') and x[1][2] in ('copy', '__copy__', '__deepcopy__') and
+             x[1][1] == ('attr', ('param', 'pinfo'), 'src_indices')) or
+            attr_path(x[1]) in ('copy.copy', 'copy.deepcopy', 'copy', 'deepcopy', 'indexer'))]
+        if shared is None:
+            out.ok(ap, astx.stmt_of(c), 'each promoted name gets its own promotion info object')
+        elif raw:
+            out.bad(ap, astx.stmt_of(c), 'the Indexer of a promotes() call is shared by every name of that call '
+                    f'(`{astx.src(shared)}` in Group.promotes) and is put on each edge as it is: the edges resolve it '
+                    'against the shapes of DIFFERENT sources (set_src_shape), the last one wins, so negative indices '
+                    'and open slices of the other inputs are resolved against the wrong source size '
+                    "(promotes('c', inputs=['a', 'b'], src_indices=[-1, 0]) with sources of different sizes)",
+                    key='shared-promotes-indexer')
+        elif fresh:
+            out.ok(ap, astx.stmt_of(c), 'the edge receives its own copy of the promoted src_indices')
+        else:
+            out.unsure(ap, astx.stmt_of(c), f'origin of the edge src_indices `{show(t)}` not recognised')
 
 
 # =========================================================================== C04.api
@@ -3090,7 +3348,12 @@ def api(repo, out):
         b = _bind(c, pcae)
         kw = astx.kwarg(c, 'src_indices')
         kt = asym.term(kw, at) if kw is not None else None
-        has = kt is not None and any(a == ('attr', ('param', 'pinfo'), 'src_indices') for a in alts(kt))
+        PI_IDX = ('attr', ('param', 'pinfo'), 'src_indices')
+        has = kt is not None and any(
+            a == PI_IDX or (_k(a, 'call') and ((_k(a[1], 'attr') and a[1][1] == PI_IDX and
+                                                 a[1][2] in ('copy', '__copy__', '__deepcopy__')) or
+                                                (attr_path(a[1]) in ('copy.copy', 'copy.deepcopy', 'copy', 'deepcopy')
+                                                 and a[2] and a[2][0] == PI_IDX))) for a in alts(kt))
         if not has:
             out.bad(ap, astx.stmt_of(c), 'the promotion edge is added without `src_indices=pinfo.src_indices`',
                     key='api-promotion-indices')
@@ -3126,6 +3389,51 @@ def api(repo, out):
 # =========================================================================== self-test
 _SN_TEST = ("        elif (slc.start is not None and slc.start < 0) or slc.stop is None or slc.stop < 0 or \\\n"
             "                (slc.start is None and slc.step < 0):")
+
+_SSF_A = ("        if not (src_indices is None or shape is None):\n"
+          "            # always (re)resolve against the current shape of the parent: the indexer object of a static\n"
+          "            # connect()/promotes() survives a re-setup in which the source may have been resized\n"
+          "            src_indices.set_src_shape(shape)\n            shape = src_indices.indexed_src_shape\n"
+          "            if val is not None:\n                val = src_indices.indexed_val(np.atleast_1d(val))\n")
+_SSF_A_NEW = "        shape, val = self._index_shape_and_val(src_indices, shape, val)\n"
+_SSF_B = ("            if src_indices is not None and src_shape is not None:\n"
+          "                src_indices.set_src_shape(src_shape)\n                src_shape = src_indices.indexed_src_shape\n"
+          "                if src_val is not None:\n"
+          "                    src_val = src_indices.indexed_val(np.atleast_1d(src_val))\n")
+_SSF_B_NEW = "            src_shape, src_val = self._index_shape_and_val(src_indices, src_shape, src_val)\n"
+_SSF_ANCHOR = "    def get_parent_val_shape_units(self, parent, child):\n"
+_SSF_HELPER = ("    def _index_shape_and_val(self, src_indices, shape, val):\n"
+               "        if src_indices is None or shape is None:\n            return shape, val\n"
+               "        src_indices.set_src_shape(shape)\n        indexed_shape = src_indices.indexed_src_shape\n"
+               "        if val is not None:\n            val = src_indices.indexed_val(np.atleast_1d(val))\n"
+               "        return indexed_shape, val\n\n")
+_SN_BLOCK = ("        if slc.stop is None and slc.step < 0:  # special backwards indexing case\n"
+             "            self._shaped_inst = \\\n                ShapedSliceIndexer(slc)\n" + _SN_TEST + "\n"
+             "            self._shaped_inst = \\\n"
+             "                ShapedSliceIndexer(slice(*self._slice.indices(self._src_shape[0])))\n"
+             "        else:\n            self._shaped_inst = ShapedSliceIndexer(slc)\n\n"
+             "        return self._shaped_inst._set_attrs(self)\n")
+_SN_SINGLE = ("        start, stop, step = slc.start, slc.stop, slc.step\n"
+              "        backwards_to_start = stop is None and step < 0\n"
+              "        if not backwards_to_start:\n"
+              "            if (start is not None and start < 0) or stop is None or stop < 0 or \\\n"
+              "                    (start is None and step < 0):\n"
+              "                slc = slice(*slc.indices(self._src_shape[0]))\n\n"
+              "        shaped = self._shaped_inst = ShapedSliceIndexer(slc)\n"
+              "        return shaped._set_attrs(self)\n")
+_GX_HEAD = ("        xfer = self._transfers[mode]\n        if sub in xfer:\n            xfer = xfer[sub]\n        else:\n"
+            "            if mode == 'fwd' and self._conn_discrete_in2out and vec_name == 'nonlinear':\n"
+            "                self._discrete_transfer(sub)\n            return\n\n")
+_GX_HEAD_NEW = ("        xfers = self._transfers[mode]\n        if sub not in xfers:\n            if mode == 'fwd':\n"
+                "                self._nl_discrete_transfer(vec_name, sub)\n            return\n\n"
+                "        xfer = xfers[sub]\n")
+_GX_DISC = ("            if self._conn_discrete_in2out and vec_name == 'nonlinear':\n"
+            "                self._discrete_transfer(sub)\n\n        else:  # rev")
+_GX_DISC_NEW = "            self._nl_discrete_transfer(vec_name, sub)\n\n        else:  # rev"
+_GX_ANCHOR = "    def _discrete_transfer(self, sub):\n"
+_GX_HELPER = ("    def _nl_discrete_transfer(self, vec_name, sub):\n"
+              "        if self._conn_discrete_in2out and vec_name == 'nonlinear':\n"
+              "            self._discrete_transfer(sub)\n\n")
 
 selftest(
     'C04',
@@ -3422,4 +3730,44 @@ selftest(
          "                cur_shape = src_shape\n                src_indices.set_src_shape(cur_shape)\n                src_shape = src_indices.indexed_src_shape"),
     Twin('twin-ssf-guard-changed', CONN, "            src_indices.set_src_shape(shape)\n            shape = src_indices.indexed_src_shape",
          "            if src_indices._src_shape != shape:\n                src_indices.set_src_shape(shape)\n            shape = src_indices.indexed_src_shape"),
+    # ---- robustness round 2: helper extraction / single construction site / early return (accepted), broken inside
+    Twin('twin-ssf-helper', CONN, _SSF_A, _SSF_A_NEW, also=[(CONN, _SSF_B, _SSF_B_NEW), (CONN, _SSF_ANCHOR, _SSF_HELPER + _SSF_ANCHOR)]),
+    Mutant('ssf-helper-stale-guard', CONN, _SSF_A, _SSF_A_NEW, 'C04.src-shape-fresh',
+           also=[(CONN, _SSF_B, _SSF_B_NEW),
+                 (CONN, _SSF_ANCHOR, _SSF_HELPER.replace("        src_indices.set_src_shape(shape)\n", "        if src_indices._src_shape is None:\n            src_indices.set_src_shape(shape)\n") + _SSF_ANCHOR)]),
+    Mutant('ssf-helper-wrong-shape', CONN, _SSF_A, _SSF_A_NEW, 'C04.src-shape-fresh',
+           also=[(CONN, _SSF_B, _SSF_B_NEW.replace("(src_indices, src_shape, src_val)", "(src_indices, tgt_shape, src_val)")),
+                 (CONN, _SSF_ANCHOR, _SSF_HELPER + _SSF_ANCHOR)]),
+    Twin('twin-sn-single-ctor', INDEXER, _SN_BLOCK, _SN_SINGLE),
+    Mutant('sn-single-ctor-neg-start', INDEXER, _SN_BLOCK, _SN_SINGLE.replace("(start is not None and start < 0) or ", ""), 'C04.slice-norm'),
+    Mutant('sn-single-ctor-inverted', INDEXER, _SN_BLOCK, _SN_SINGLE.replace("        if not backwards_to_start:", "        if backwards_to_start:"), 'C04.slice-norm'),
+    Twin('twin-gx-helper-early-return', GROUP, _GX_HEAD, _GX_HEAD_NEW, also=[(GROUP, _GX_DISC, _GX_DISC_NEW), (GROUP, _GX_ANCHOR, _GX_HELPER + _GX_ANCHOR)]),
+    Mutant('gx-helper-under-xfer', GROUP, _GX_HEAD, _GX_HEAD_NEW, 'C04.group-xfer',
+           also=[(GROUP, _GX_DISC, "                self._nl_discrete_transfer(vec_name, sub)\n\n        else:  # rev"), (GROUP, _GX_ANCHOR, _GX_HELPER + _GX_ANCHOR)]),
+    Mutant('gx-helper-not-always', GROUP, _GX_HEAD, _GX_HEAD_NEW, 'C04.group-xfer',
+           also=[(GROUP, _GX_DISC, _GX_DISC_NEW),
+                 (GROUP, _GX_ANCHOR, _GX_HELPER.replace("if self._conn_discrete_in2out and vec_name == 'nonlinear':", "if self._conn_discrete_in2out and vec_name == 'nonlinear' and sub is not None:") + _GX_ANCHOR)]),
+    # ---- round-3 seeds and the clauses added for them
+    Mutant('seed3-1-rewire-before-chains', CONN, "        self.add_auto_ivc_nodes(model)\n        self.update_src_inds_lists(model)\n", "        self.add_auto_ivc_nodes(model)\n        self.transform_input_input_connections(model)\n        self.update_src_inds_lists(model)\n",
+           'C04.chain-order', also=[(CONN, "        self.update_all_node_meta(model)\n        self.transform_input_input_connections(model)\n", "        self.update_all_node_meta(model)\n")]),
+    Mutant('co-chains-rebuilt-after', CONN, "        self.update_all_node_meta(model)\n        self.transform_input_input_connections(model)\n", "        self.update_all_node_meta(model)\n        self.transform_input_input_connections(model)\n        self.update_src_inds_lists(model)\n", 'C04.chain-order'),
+    Mutant('co-chains-never-built', CONN, "        self.add_auto_ivc_nodes(model)\n        self.update_src_inds_lists(model)\n", "        self.add_auto_ivc_nodes(model)\n", 'C04.chain-order'),
+    Twin('twin-co-alias', CONN, "        self.add_auto_ivc_nodes(model)\n        self.update_src_inds_lists(model)\n", "        self.add_auto_ivc_nodes(model)\n        build_chains = self.update_src_inds_lists\n        build_chains(model)\n"),
+    Mutant('seed3-2-adder-formula', DVEC, "scale0 = (a0 + offset) * factor", "scale0 = a0 + offset * factor", 'C04.proto'),
+    Mutant('seed3-3-cache-kept', INDEXER, "                self._dist_shape = None\n                raise\n            self._shaped_inst = None\n", "                self._dist_shape = None\n                self._shaped_inst = None\n                raise\n", 'C04.shape-cache'),
+    Mutant('sc-cache-never-dropped', INDEXER, "                raise\n            self._shaped_inst = None\n", "                raise\n", 'C04.shape-cache'),
+    Mutant('sc-multi-skips-super', INDEXER, "        self._check_src_shape(shape2tuple(shape))\n        super().set_src_shape(shape, dist_shape)\n", "        self._check_src_shape(shape2tuple(shape))\n        if self._src_shape is None:\n            super().set_src_shape(shape, dist_shape)\n", 'C04.shape-cache'),
+    Twin('twin-sc-invalidate-first', INDEXER, "            self._src_shape = sshape\n            try:\n                self._check_bounds()\n            except Exception:\n                self._src_shape = None\n                self._dist_shape = None\n                raise\n            self._shaped_inst = None\n",
+         "            self._shaped_inst = None\n            self._src_shape = sshape\n            try:\n                self._check_bounds()\n            except Exception:\n                self._src_shape = None\n                self._dist_shape = None\n                raise\n"),
+    # ---- edge-indexer (D7 repaired: per-edge copy)
+    Mutant('revert-d7-shared-indexer', CONN, "            src_indices = None if pinfo.src_indices is None else pinfo.src_indices.copy()\n", "            src_indices = pinfo.src_indices\n", 'C04.edge-indexer'),
+    Mutant('ei-copy-only-when-shaped', CONN, "            src_indices = None if pinfo.src_indices is None else pinfo.src_indices.copy()\n",
+           "            src_indices = pinfo.src_indices.copy() if pinfo.src_shape is None and pinfo.src_indices is not None else pinfo.src_indices\n", 'C04.edge-indexer'),
+    Twin('twin-ei-if-else', CONN, "            src_indices = None if pinfo.src_indices is None else pinfo.src_indices.copy()\n",
+         "            if pinfo.src_indices is None:\n                src_indices = None\n            else:\n                src_indices = pinfo.src_indices.copy()\n"),
+    Twin('twin-ei-copy-module', CONN, "            src_indices = None if pinfo.src_indices is None else pinfo.src_indices.copy()\n",
+         "            src_indices = None if pinfo.src_indices is None else copy.copy(pinfo.src_indices)\n"),
+    Twin('twin-ei-info-per-name', GROUP, "            subsys._var_promotes['any'].extend((a, prominfo) for a in any)", "            subsys._var_promotes['any'].extend((a, copy.deepcopy(prominfo)) for a in any)",
+         also=[(GROUP, "            subsys._var_promotes['input'].extend((i, prominfo) for i in inputs)", "            subsys._var_promotes['input'].extend((i, copy.deepcopy(prominfo)) for i in inputs)"),
+               (CONN, "            src_indices = None if pinfo.src_indices is None else pinfo.src_indices.copy()\n", "            src_indices = pinfo.src_indices\n")]),
 )
